@@ -3327,6 +3327,8 @@ THEOREMS.update({
     "C06": ("Dirk.Props.C06", ["Dirk.C06_att", "Dirk.C06_prop", "Dirk.C06_sign", "Dirk.C06_atts", "Dirk.C06_msign",
                                "Dirk.C06_att_fault", "Dirk.C06_prop_fault", "Dirk.C06_batch_store_fault",
                                "Dirk.C06_batch_fetch_fault", "Dirk.C06_shape_atts", "Dirk.C06_shape_msign",
+                               "Dirk.C06_lock_state_fault_att", "Dirk.C06_lock_state_fault_prop", "Dirk.C06_lock_state_fault_sign",
+                               "Dirk.C06_lock_state_fault_atts", "Dirk.C06_lock_state_fault_msign",
                                "Dirk.facts_rules_results", "Dirk.facts_result_switches_total", "Dirk.facts_result_switches_present"]),
 })
 
